@@ -1,5 +1,10 @@
 import Driver.ItvH
 import Driver.FixH
+import Driver.DomH
+import Driver.WrapH
+import Driver.CongH
+import Driver.FinH
+import Driver.ICH
 
 /-!
   crabdrv : line-protocol driver.  Reads cases on stdin, one per line
@@ -15,6 +20,13 @@ def dispatch (comp op : String) (args res : List Sexp) : Verdict :=
   | "iv" => handleItv op args res
   | "bd" => handleBound op args res
   | "fix" => handleFix op args res
+  | "dom" => handleDom op args res
+  | "wi" => handleWrap op args res
+  | "cg" => handleCong op args res
+  | "ic" => handleIC op args res
+  | "sgn" => handleSgn op args res
+  | "bool" => handleBoolV op args res
+  | "cst" => handleCst op args res
   | _ => .bad s!"unknown component {comp}"
 
 def handleLine (line : String) : Verdict :=
